@@ -95,7 +95,10 @@ void __fpsym_memset(char*d,uint64_t n){ if (shadow.empty()||n==0) return; Guard 
   if (n > shadow.size()*16){ for(auto it=shadow.begin();it!=shadow.end();){ if(it->first>=(uintptr_t)d && it->first<(uintptr_t)d+n) it=shadow.erase(it); else ++it; } }
   else for(uint64_t o=0;o<n;o++) shadow.erase((uintptr_t)(d+o)); }
 void __fpsym_free(char*p){ if(!p||shadow.empty()) return; size_t n=malloc_usable_size(p); __fpsym_memset(p,n); }
-uint64_t __fpsym_math1(int f,uint64_t sa,double a,double r){ if(!sa) return 0; Guard g; return mk(100+f,sa,0,r); }
+uint64_t __fpsym_math1(int f,uint64_t sa,double a,double r){ if(!sa) return 0; Guard g;
+  if(f==1){ // fabs: the sign of the argument becomes a path constraint (cells split at the kink), the value stays polynomial
+    int nonneg = (a >= 0.0); pc.push_back({3 /*oge*/, sa, K(0.0), nonneg}); return nonneg ? sa : mk(50,sa,0,-a); }
+  return mk(100+f,sa,0,r); }
 uint64_t __fpsym_math2(int f,uint64_t sa,uint64_t sb,double a,double b,double r){ if(!(sa|sb)) return 0; Guard g; if(!sa) sa=K(a); if(!sb) sb=K(b); return mk(100+f,sa,sb,r); }
 void __fpsym_escape(uint64_t s,int what){ if(s){ Guard g; escapes++; escape_what += std::to_string(what)+","; } }
 // binary stream tape: ostream::write / istream::read carry shadows of 8-byte aligned doubles
